@@ -644,8 +644,20 @@ class ListenerRequestHandler(BaseHTTPRequestHandler):
         # by servers, but listeners are not required to reject them:
         # Content-Range, Expires, If-Range, Range.
 
+        # Content-Length header check: Must be a non-negative integer
+        content_length = self.headers.get('Content-Length', '0')
+        try:
+            content_len = int(content_length)
+        except ValueError:
+            content_len = -1
+        if content_len < 0:
+            self.send_http_error(
+                400, 'header-mismatch',
+                _format("Invalid Content-Length header value: {0!A} "
+                        "(need a non-negative integer)", content_length))
+            return
+
         # Start processing the request
-        content_len = int(self.headers.get('Content-Length', 0))
         body = self.rfile.read(content_len)
 
         try:
